@@ -1152,6 +1152,17 @@ func (l *LineWrapper) wrapNextLine(config lineConfig) (done bool) {
 				return false
 			}
 		}
+		if !l.scratch.hasBest() && !config.truncating {
+			// No grapheme boundary may be used before the word option (they are all inside
+			// a shaped cluster, or the first grapheme extends past the option): the line must
+			// still contain something, so use the word option even if it does not fit.
+			l.checkpoint()
+			if result, candidateRun := l.processBreakOption(option, config); result != breakInvalid {
+				l.scratch.markCandidateBest(candidateRun)
+			} else {
+				l.restore()
+			}
+		}
 		return false
 	}
 	return true
